@@ -10,7 +10,7 @@ open Gin Gin.AList
 /-- What it means for a key to name a configurable parameter of a registered configurable. -/
 def Bindable (st : State) (k : Key) (full : Sel) : Prop :=
   ∃ e, st.registry.getMatch k.sel = .one full e
-    ∧ e.cfg.sig.mightHave k.arg = true          -- a named parameter, or the function takes **kwargs
+    ∧ e.cfg.mightHave k.arg = true              -- a named parameter (of the undecorated function), or it takes **kwargs
     ∧ e.cfg.listed k.arg = true                 -- inside the allowlist / outside the denylist
     ∧ (e.cfg.isMethod = true → 2 ≤ k.sel.length) -- a method is addressed through its class
 
@@ -131,7 +131,27 @@ theorem method_needs_class (st : State) (k : Key) (full : Sel) (e : Entry)
   unfold State.parseKey
   simp [hm, hmeth, hshort]
 
+/-- An ordinary decorator between Gin and the function does not widen what can be bound: although the
+    registered callable itself takes `**kwargs`, a parameter is bindable only if the function at the end of
+    the `__wrapped__` chain might have it. -/
+theorem decorator_does_not_widen (st : State) (k : Key) (full : Sel) (e : Entry) (inner : Sig)
+    (hm : st.registry.getMatch k.sel = .one full e) (hin : e.cfg.innerSig = some inner)
+    (hno : inner.mightHave k.arg = false) : st.parseKey k = .error .valueError := by
+  unfold State.parseKey
+  simp only [hm]
+  split
+  · rfl
+  · simp [Cfgable.mightHave, hin, hno]
+
 /-! Non-vacuity. -/
+def demoDeco : State :=
+  match initState.register { name := ["g"], module := some ["m"], sig := { varargs := true, varkw := true },
+                             innerSig := some { pos := [("x", none)] }, objId := 2 } with
+  | .ok s => s
+  | .error _ => initState
+example : (demoDeco.bind { scope := [], sel := ["g"], arg := "x" } (.int 1)).toOption.isSome = true := by rfl
+example : (demoDeco.bind { scope := [], sel := ["g"], arg := "y" } (.int 1)).toOption.isSome = false := by rfl
+
 def demoSt : State :=
   match initState.register { name := ["f"], module := some ["m"], sig := { pos := [("x", none)] },
                              deny := [], allow := ["x"], objId := 1 } with
